@@ -70,6 +70,16 @@ theorem C17_frame (s : State) (xs : List Txn) (rms : List Path) (k : Nat) (hinv 
   · exact absurd (hyt ▸ List.mem_map_of_mem (f := (·.target)) hy) h2
   · exact absurd h h3
 
+/-- rename(2) replaces the directory ENTRY, it never follows it: when an output name pre-exists as a symbolic link (or a hard
+    link), the path the link points to — inside the package directory, outside it, anywhere — is just another path `n` and just
+    another inode `i` of the directory tree: its content is the same at every crash point and at the end, and its inode is never
+    written. (In the model a symbolic link is an inode of its own whose bytes are the link text; `step (.rename a b)` re-binds `b`
+    and touches nothing else.) -/
+theorem C17_link_target_untouched (s : State) (xs : List Txn) (rms : List Path) (k : Nat) (hinv : Inv s) (hfd : s.fd = none)
+    (hfresh : freshTemps s xs) (n : Path) (h1 : n ∉ tmps xs) (h2 : n ∉ targets xs) (h3 : n ∉ rms) (i : Nat) (hi : i < s.next) :
+    read (exec s ((runOps xs rms).take k)) n = read s n ∧ (exec s ((runOps xs rms).take k)).data i = s.data i :=
+  ⟨C17_frame s xs rms k hinv hfresh n h1 h2 h3, data_stable _ s i hi (by simp [hfd]) (by simp [hfd])⟩
+
 /-- an inode that existed before the run is never written, whatever ops follow (O_EXCL gives every write a fresh
     inode): a hard link to an old output keeps the old content, and so does any file -/
 theorem C17_hardlink (s : State) (ops : List Op) (i : Nat) (hi : i < s.next) (hfd : s.fd = none) :
